@@ -206,7 +206,8 @@ def shrink(case, still):
 
 @st.composite
 def cases(draw):
-    col = draw(colgen.collection(min_msgs=0, max_msgs=6, faults='some', rich=True, with_delete='no'))
+    col = draw(colgen.collection(min_msgs=0, max_msgs=6, faults='some', rich=True, with_delete='no',
+                                 allow_no_slug=True))
     docs = col['docs']
     ro_xml, prefix = docs[0], docs[1:]
     with warnings.catch_warnings():
